@@ -41,7 +41,7 @@ LEVEL_NOTE = (
     "posttask for the same key is validated on the real event logs (the theorem gives the counts and "
     "posttask-implies-pretask). Trusted: Lean kernel + standard axioms; the harness.")
 TECHNIQUE = "Lean 4 structural-induction proof over all well-bracketed callback programs + differential correspondence on operation histories"
-ASSUMPTIONS = ["callbacks do not raise and do not touch Callback.active themselves", "StartOK (see C01) for protocol_order"]
+ASSUMPTIONS = ["callbacks do not raise and do not touch Callback.active themselves"]
 
 
 class _World:
